@@ -144,6 +144,12 @@ func msgScenario(c *Ctx, mm msgMatcher, mc msgCase) *Scenario {
 			key := "global:" + globalName(g)
 			if bs := varInitBytes(c, pk, name); bs != nil {
 				sc.Heap[key] = byteSliceSV(sc.Heap, key, bs)
+			} else if xs, ok := varInitInts(c, pk, name); ok {
+				l := symInt(int64(len(xs)))
+				for i, x := range xs {
+					sc.Heap[fmt.Sprintf("%s[%d]", key, i)] = symInt(x)
+				}
+				sc.Heap[key] = SV{K: "slice", Desc: key, Len: &l, Cap: &l, Known: true}
 			} else if ss, ok := varInitStrings(c, pk, name); ok {
 				l := symInt(int64(len(ss)))
 				for i, x := range ss {
